@@ -170,6 +170,7 @@ Ch(n)   == [k |-> "char", name |-> n, w |-> 1]
 En(n, t) == [k |-> "enum", name |-> n, w |-> 1, table |-> t]
 Fl(n, w, t) == [k |-> "flags", name |-> n, w |-> w, table |-> t]
 S(n, N) == [k |-> "str", name |-> n, w |-> N]                       \* fixed-width text, NUL padded
+RS(n, N) == [k |-> "rstr", name |-> n, w |-> N]                     \* ... sent as it is (UTF-8), not through LFS's code pages
 VS(n, max) == [k |-> "vstr", name |-> n, w |-> 0, max |-> max, nul |-> FALSE]     \* variable text, NUL padded to a multiple of 4
 VSN(n, max) == [k |-> "vstr", name |-> n, w |-> 0, max |-> max, nul |-> TRUE]     \* ... of which the last byte must be NUL (IS_MTC)
 DurMs(n, w) == [k |-> "dur", name |-> n, w |-> w, scale |-> 1]
@@ -211,7 +212,7 @@ HostInfoF == <<S("hname", 32), Trk("track"), Fl("flags", 1, HostInfoFlagsT), U8(
 R == U8("reqi")
 Layout == [
   Isi |-> [type |-> 1, size |-> 44, fields |-> <<R, P(1), U16("udpport"), Fl("flags", 2, IsiFlagsT), U8("version"), Ch("prefix"),
-            DurMs("interval", 2), S("admin", 16), S("iname", 16)>>],
+            DurMs("interval", 2), RS("admin", 16), S("iname", 16)>>],
   Ver |-> [type |-> 2, size |-> 20, fields |-> <<R, P(1), GV("version"), S("product", 6), U8("insimver"), P(1)>>],
   Tiny |-> [type |-> 3, size |-> 4, fields |-> <<R, En("subt", TinyType)>>],
   Small |-> [type |-> 4, size |-> 8, fields |-> <<R, SmallU("subt")>>],
@@ -348,6 +349,12 @@ CimBytes(m) ==
     [] OTHER -> <<CimModeT[m.k], 0, 0>>
 
 RECURSIVE EncFields(_, _, _, _), EncField(_, _, _)
+\* UTF-8 of a sequence of code points (up to U+FFFF)
+Utf8Of(c) == IF c < 128 THEN <<c>>
+             ELSE IF c < 2048 THEN <<192 + (c \div 64), 128 + (c % 64)>>
+             ELSE <<224 + (c \div 4096), 128 + ((c \div 64) % 64), 128 + (c % 64)>>
+Utf8(t) == FlattenSeq([i \in 1..Len(t) |-> Utf8Of(t[i])])
+
 \* bytes of one field; `pos` = number of frame bytes before it (size byte included)
 EncField(f, rec, pos) ==
   CASE f.k = "u"      -> LE(rec[f.name], f.w)
@@ -359,6 +366,7 @@ EncField(f, rec, pos) ==
     [] f.k = "enum"   -> <<f.table[rec[f.name]]>>
     [] f.k = "flags"  -> BitBytes(FlagBits(rec[f.name], f.table), f.w)
     [] f.k = "str"    -> PadTo(rec[f.name], f.w)
+    [] f.k = "rstr"   -> PadTo(Utf8(rec[f.name]), f.w)
     [] f.k = "vstr"   -> LET t == IF f.nul /\ Len(rec[f.name]) > f.max - 1 THEN SubSeq(rec[f.name], 1, f.max - 1) ELSE rec[f.name]
                              n == Len(t)  r == IF f.nul THEN ((n + 4) \div 4) * 4 ELSE ((n + 3) \div 4) * 4
                          IN PadTo(t, IF r > f.max THEN f.max ELSE r)
